@@ -855,9 +855,9 @@ func (ts *TermStore) ubounds(t *Term) (uint64, uint64) {
 		l1, h1 := ts.ubounds(t.a[0])
 		if t.a[1].op == OpConst && t.a[1].val != 0 {
 			lo, hi = l1/t.a[1].val, h1/t.a[1].val
-		} else {
-			hi = h1
-		}
+		} else if l2, _ := ts.ubounds(t.a[1]); l2 > 0 {
+			hi = h1 / l2
+		} // a divisor that may be zero: bvudiv x 0 is all ones, no bound
 	case OpLShr:
 		_, h1 := ts.ubounds(t.a[0])
 		if t.a[1].op == OpConst && t.a[1].val < 64 {
